@@ -14,13 +14,16 @@
    class_node.symbols; an ExtendsClause is in the element list and in class_node.extends) are stored once,
    in the element result, and the class tables are read off in insertion order at exitComposition.
 
-   `variant` selects between the code as it is and three small repairs (fixes/C04_*.diff):
+   `variant`: `head_variant` (all flags true) is /repo HEAD.  A false flag gives the code before one of the three
+   repairs found by this check (commits 7cea29a, 480cfc0, e08c00c); kept for the `_refuted` witnesses only:
      v_allsec    false: ctx.epub / ctx.epro hold only the LAST public / protected element list
-                 true : every section is labelled
+                 true : every section is labelled (exitComposition walks ctx.getChildren())
      v_dimsmerge false: clause dimensions overwrite a declarator's own dimensions
                  true : `Real[2] x[3]` gives [[3, 2]]
      v_implist   false: import A.{C,D,E} binds C and "D,E" (import_list.children[::2])
                  true : binds C, D, E
+   `l_trace` is a ghost component of the listener state: (order, object identities) of every Symbol created so
+   far, in creation order, i.e. in source order; nothing reads it.
    Expressions (dimension subscripts, modification values, equations, statements) are opaque canonical
    strings: their parsing is C03's subject.  No proofs here.  Stdlib only. *)
 From Coq Require Import String List Bool Arith.
@@ -73,8 +76,8 @@ Arguments Ok {A} a.
 Arguments Err {A} e.
 
 Record variant := mkV { v_allsec : bool; v_dimsmerge : bool; v_implist : bool }.
-Definition head_variant := mkV false false false.
-Definition repaired_variant := mkV true true true.
+Definition head_variant := mkV true true true.
+Definition prefix_variant := mkV false false false.
 
 (* ---- modifications (exitModification_* 730-739, exitElement_modification 721-728,
         exitArgument 171-179, exitClass_modification 184-188) -------------------------------- *)
@@ -105,8 +108,10 @@ Definition decl_cm (m : option modif) : option omod :=
   match m with None => None | Some m' => fold_left decl_step (conv_modif m') None end.
 
 (* ---- listener-global state ----------------------------------------------------------------- *)
+Definition key_t : Type := nat * (nat * nat * nat).
 Record lst := mkL { l_count : nat (* sym_count *); l_symset : bool (* symbol_node is not None *);
-                    l_next : nat (* next object stamp *) }.
+                    l_next : nat (* next object stamp *);
+                    l_trace : list key_t (* ghost: (order, ids) of the symbols created so far, in source order *) }.
 
 Section MapM.
   Context {A B S : Type} (f : A -> S -> result (B * S)).
@@ -142,7 +147,7 @@ Definition do_declr (cl : clause) (P T D0 : nat) (d : declr) (st : list string *
                           end in
   (* exitComponent_declaration 675-677: comment; symbol_node = None *)
   Ok (mkS (d_name d) [] (c_prefixes cl) dims Private order (d_comment d) (decl_cm (d_mod d)) P did T,
-      (seen ++ [d_name d], mkL cnt false nx)).
+      (seen ++ [d_name d], mkL cnt false nx (l_trace l))).
 
 Definition set_type (t : list string) (s : osym) : osym :=
   mkS (s_name s) t (s_prefixes s) (s_dims s) (s_vis s) (s_order s) (s_comment s) (s_cm s) (s_pid s) (s_did s) (s_tid s).
@@ -186,15 +191,17 @@ Definition close_clause (v : variant) (cl : clause) (D0 : nat) (ss : list osym) 
   | s0 :: tl => let '(tl', n3) := copy_syms tl n2 in (s0 :: tl', n3)
   end.
 
+Definition key (s : osym) : key_t := (s_order s, (s_pid s, s_did s, s_tid s)).
+
 Definition do_clause (v : variant) (cl : clause) (st : list string * lst) : result (list osym * (list string * lst)) :=
   let '(seen, l) := st in
   (* enterComponent_clause 604-609: prefixes list; ComponentClause() allocates its type and default dimensions *)
   let P := l_next l in let T := S P in let D0 := S T in
-  match mapM (do_declr cl P T D0) (c_decls cl) (seen, mkL (l_count l) (l_symset l) (S D0)) with
+  match mapM (do_declr cl P T D0) (c_decls cl) (seen, mkL (l_count l) (l_symset l) (S D0) (l_trace l)) with
   | Err e => Err e
   | Ok (ss, (seen', l')) =>
       let '(ss', n') := close_clause v cl D0 ss (l_next l') in
-      Ok (ss', (seen', mkL (l_count l') (l_symset l') n'))
+      Ok (ss', (seen', mkL (l_count l') (l_symset l') n' (l_trace l' ++ map key ss')))
   end.
 
 (* ---- imports (exitImport_clause 539-575); class_node.imports is an OrderedDict -------------- *)
@@ -244,7 +251,7 @@ Inductive ores := RSyms (ss : list osym) | RExt (e : oext) | ROther.    (* self.
    when symbol_node is None; nothing resets symbol_node until the next component declaration ends *)
 Definition ext_count (m : option (list arg)) (l : lst) : lst :=
   match m with
-  | Some (_ :: _) => if l_symset l then l else mkL (S (l_count l)) true (l_next l)
+  | Some (_ :: _) => if l_symset l then l else mkL (S (l_count l)) true (l_next l) (l_trace l)
   | _ => l
   end.
 
@@ -330,11 +337,14 @@ Fixpoint do_element (v : variant) (path : list string) (e : element) (st : cstat
   end.
 
 (* a file: stored_definition_class*, attached to the listener's root class node *)
-Definition run_file (v : variant) (cs : list element) : result (list oclass) :=
-  match mapM (do_element v []) cs (mkK [] [] [], mkL 0 false 0) with
+Definition init_lst : lst := mkL 0 false 0 [].
+Definition run_file_full (v : variant) (cs : list element) : result (list oclass * lst) :=
+  match mapM (do_element v []) cs (mkK [] [] [], init_lst) with
   | Err x => Err x
-  | Ok (rs, _) => Ok (concat (map snd rs))
+  | Ok (rs, (_, l)) => Ok (concat (map snd rs), l)
   end.
+Definition run_file (v : variant) (cs : list element) : result (list oclass) :=
+  match run_file_full v cs with Err x => Err x | Ok (cs', _) => Ok cs' end.
 
 (* ---- observation format and the correspondence check --------------------------------------- *)
 Fixpoint show_omod (c : omod) : string :=
